@@ -265,6 +265,9 @@ func pkgName(sys resolve.System, i int) string {
 		if i == 1 {
 			return "@sc/pb" // a scoped name
 		}
+		if i == 2 {
+			return "JSONStream" // capitals (npm names are case-sensitive)
+		}
 		return fmt.Sprintf("p%c", 'a'+i)
 	}
 	return fmt.Sprintf("org.x:p%c", 'a'+i)
